@@ -231,3 +231,36 @@ pub fn compare_memory(cfg: &Config, o: Orient, img: &RefImage, panel: &Panel) ->
 pub fn in_window(cfg: &Config, px: u32, py: u32) -> bool {
     px >= cfg.ox as u32 && px < cfg.ox as u32 + cfg.w as u32 && py >= cfg.oy as u32 && py < cfg.oy as u32 + cfg.h as u32
 }
+
+/// The MY/MX/MV bits (MADCTL bits 7/6/5) each orientation requires, *derived* rather than
+/// written down: for a full-framebuffer display (3x2, no offsets, so any driver must address
+/// columns 0..lw-1 and pages 0..lh-1) the unique triple under which the Panel's addressing puts
+/// every logical point where the geometric reference says.
+pub fn derive_orientation_bits() -> [u8; 8] {
+    use crate::models::ModelId;
+    use crate::types::Transport;
+    let mut out = [0u8; 8];
+    for o in Orient::ALL {
+        let mut cfg = Config::full(ModelId::E2x3, Transport::Rec8);
+        cfg.orient = o;
+        let (lw, lh) = cfg.logical_size(o);
+        let mut found = Vec::new();
+        for bits in 0..8u8 {
+            let mut p = Panel::new(2, 3, 8);
+            p.madctl = bits << 5;
+            let ok = (0..lh).all(|y| (0..lw).all(|x| p.cell(x, y) == Some(to_phys(&cfg, o, x, y))));
+            if ok {
+                found.push(bits << 5);
+            }
+        }
+        assert!(found.len() == 1, "HARNESS: orientation {:?} has {} matching MADCTL triples", o, found.len());
+        out[o.index()] = found[0];
+    }
+    out
+}
+
+/// MIPI-DCS encoding of the address mode: bits 7/6/5 from the orientation, bit 4 bottom-to-top
+/// refresh, bit 3 BGR, bit 2 right-to-left refresh, bits 1-0 zero.
+pub fn madctl_expected(table: &[u8; 8], o: Orient, bgr: bool, refresh_v: bool, refresh_h: bool) -> u8 {
+    table[o.index()] | if refresh_v { 1 << 4 } else { 0 } | if bgr { 1 << 3 } else { 0 } | if refresh_h { 1 << 2 } else { 0 }
+}
